@@ -10,6 +10,7 @@ whole-decoder independence of chunking is observed by the harness under random s
 -/
 import ThriftVerif.Schema.StreamProofs
 import ThriftVerif.Schema.EncodeProofs
+import ThriftVerif.Schema.LazyRefine
 
 namespace ThriftVerif.Properties.C04
 open ThriftVerif.Wire ThriftVerif.Schema
@@ -29,6 +30,36 @@ theorem paths_never_differ (env : Env) (fuel f : Nat) (t : Ty) (bs : Bytes)
     (hd : dec f t.code bs = .ok (w, rest)) (hf : fromWire env fuel t w = .ok g)
     (hs : decodeS env fuel t bs = .ok (g', rest')) : g' = g ∧ rest' = rest :=
   ThriftVerif.Schema.paths_never_differ env fuel f t bs w rest rest' g g' hd hf hs
+
+/-- The value path as it really runs — `binary.Decode` hands back LAZY containers (validated
+by a seeking skip, re-read when forced) and generated `FromWire` forces only the containers
+whose element types match — accepts every input the strict reading accepts, with the same
+value and the same consumed length, for every schema, type and byte string. -/
+theorem real_value_path_accepts_strict (env : Env) (fuel : Nat) (t : Ty) (bs : Bytes)
+    (w : WValue) (rest : Bytes) (g : GVal)
+    (hd : decode t.code bs = .ok (w, rest)) (hf : fromWire env fuel t w = .ok g) :
+    valuePath env fuel t bs = .ok (g, (rest, 0)) :=
+  lazy_refines_strict env fuel t bs w rest g hd hf
+
+/-- On every input that is a valid encoding for the schema (the strict reading succeeds), the
+two real paths — lazy `Decode` + `FromWire`, and streaming `Decode` — both succeed, with the
+same value and the same consumed length. -/
+theorem real_paths_agree_on_valid_input (env : Env) (fuel : Nat) (t : Ty) (bs : Bytes)
+    (w : WValue) (rest : Bytes) (g : GVal)
+    (hd : decode t.code bs = .ok (w, rest)) (hf : fromWire env fuel t w = .ok g) :
+    valuePath env fuel t bs = .ok (g, (rest, 0)) ∧ decodeS env fuel t bs = .ok (g, rest) :=
+  ⟨lazy_refines_strict env fuel t bs w rest g hd hf,
+   ThriftVerif.Schema.stream_accepts_what_value_path_accepts env fuel _ t bs w rest g hd hf⟩
+
+/-- Outside the valid encodings the real value path is more permissive than the streaming path
+(finding D22's mechanism): a list whose declared element type does not match is never forced,
+and its extent was "validated" by an unchecked seek — five announced i32 items that are not
+there are accepted by the value path and rejected by the streaming path. -/
+theorem real_value_path_more_permissive_witness :
+    let env : Env := { structs := [] }
+    (valuePath env 10 (.list .i64) [8, 0, 0, 0, 5]).toBool = true ∧
+    (decodeS env 10 (.list .i64) [8, 0, 0, 0, 5]).toBool = false := by
+  decide
 
 /-- The streaming path is strictly more permissive in one documented way: a skipped (unknown)
 field is not validated. Witness: an unknown bool field holding the byte 2 — the value path
